@@ -288,6 +288,7 @@ fn run(rp: &Rp) -> i32 {
         "std_struct" => replay_std_struct(rp),
         "purity" | "purity_clone" => replay_purity(rp),
         "sim_meta" => replay_sim_meta(rp),
+        "ac_meta" => replay_ac_meta(rp),
         "reject" | "reject_inf" | "reject_stream" | "reject_replace" => replay_reject(rp, &hay),
         "ac_ismatch" => {
             let (s, e) = (rp.usize("s"), rp.usize("e"));
@@ -361,6 +362,121 @@ fn replay_purity(rp: &Rp) -> i32 {
             run(&b.build(&rp.pats).expect("build"), rp)
         }
     }
+}
+
+/// Native form of `ac_meta` / `ac_stream_init`: the top-level searcher's
+/// getters vs the pattern list, every `Arc<dyn AcAutomaton>` forwarder vs the
+/// direct call on the wrapped automaton (start states, all bytes, two steps),
+/// and - where stream search is supported - a single-byte-read stream search
+/// through the top-level searcher vs its in-memory iterator.
+fn replay_ac_meta(rp: &Rp) -> i32 {
+    use aho_corasick::automaton::Automaton;
+    use aho_corasick::verif::ac as hk;
+    let ac = rp.ac();
+    let mut bad: Vec<String> = vec![];
+    let np = rp.pats.len();
+    if ac.patterns_len() != np {
+        bad.push(format!("patterns_len {} != {}", ac.patterns_len(), np));
+    }
+    let (fnp, fmn, fmx, fmk, _pf) = hk::fwd_meta(&ac);
+    if fnp != np || fmk != ac.match_kind() {
+        bad.push("forwarded patterns_len / match_kind".into());
+    }
+    if np > 0 {
+        let mn = rp.pats.iter().map(|p| p.len()).min().unwrap();
+        let mx = rp.pats.iter().map(|p| p.len()).max().unwrap();
+        if ac.min_pattern_len() != mn || fmn != mn {
+            bad.push(format!("min_pattern_len: getter {} forwarder {} input {}", ac.min_pattern_len(), fmn, mn));
+        }
+        if ac.max_pattern_len() != mx || fmx != mx {
+            bad.push(format!("max_pattern_len: getter {} forwarder {} input {}", ac.max_pattern_len(), fmx, mx));
+        }
+        for (i, p) in rp.pats.iter().enumerate() {
+            if hk::fwd_pattern_len(&ac, aho_corasick::PatternID::new_unchecked(i)) != p.len() {
+                bad.push(format!("forwarded pattern_len({})", i));
+            }
+        }
+    }
+    fn walk<A: Automaton>(ac: &AhoCorasick, a: &A, bad: &mut Vec<String>) {
+        use aho_corasick::verif::ac as hk;
+        for an in [Anchored::No, Anchored::Yes] {
+            let (r1, r2) = (hk::fwd_start_state(ac, an), a.start_state(an));
+            if r1.is_ok() != r2.is_ok() {
+                bad.push(format!("forwarded start_state({:?}) Ok/Err differs", an));
+                continue;
+            }
+            let (Ok(s1), Ok(s2)) = (r1, r2) else { continue };
+            if s1 != s2 {
+                bad.push("forwarded start_state".into());
+                continue;
+            }
+            for b in 0..=255u8 {
+                let (t1, t2) = (hk::fwd_next_state(ac, an, s1, b), a.next_state(an, s2, b));
+                if t1 != t2 {
+                    bad.push(format!("forwarded next_state on {:02x}", b));
+                    return;
+                }
+                for c in 0..=255u8 {
+                    let (u1, u2) = (hk::fwd_next_state(ac, an, t1, c), a.next_state(an, t2, c));
+                    if u1 != u2 || hk::fwd_flags(ac, u1) != (a.is_special(u2), a.is_dead(u2), a.is_match(u2), a.is_start(u2)) {
+                        bad.push(format!("forwarded next_state/flags on {:02x} {:02x}", b, c));
+                        return;
+                    }
+                    if a.is_match(u2) {
+                        if hk::fwd_match_len(ac, u1) != a.match_len(u2) {
+                            bad.push("forwarded match_len".into());
+                            return;
+                        }
+                        for k in 0..a.match_len(u2) {
+                            if hk::fwd_match_pattern(ac, u1, k) != a.match_pattern(u2, k) {
+                                bad.push("forwarded match_pattern".into());
+                                return;
+                            }
+                        }
+                    }
+                }
+            }
+        }
+    }
+    if let Some(d) = hk::as_dfa(&ac) {
+        walk(&ac, d, &mut bad);
+    } else if let Some(c) = hk::as_cnfa(&ac) {
+        walk(&ac, c, &mut bad);
+    } else if let Some(n) = hk::as_nnfa(&ac) {
+        walk(&ac, n, &mut bad);
+    }
+    // stream search through the top-level searcher, one byte per read
+    struct OneByte<'a>(&'a [u8], usize);
+    impl<'a> std::io::Read for OneByte<'a> {
+        fn read(&mut self, buf: &mut [u8]) -> std::io::Result<usize> {
+            if self.1 >= self.0.len() || buf.is_empty() {
+                return Ok(0);
+            }
+            buf[0] = self.0[self.1];
+            self.1 += 1;
+            Ok(1)
+        }
+    }
+    if rp.case.mk == 0 && rp.case.sk != 2 && rp.pats.iter().all(|p| !p.is_empty()) && np > 0 {
+        // every pattern preceded and followed by filler, so that occurrences straddle refills
+        let mut hay: Vec<u8> = vec![];
+        for p in rp.pats.iter() {
+            hay.extend_from_slice(b"~~~~~~~");
+            hay.extend_from_slice(p);
+        }
+        hay.extend_from_slice(b"~~");
+        aho_corasick::verif::buffer::set_spare_capacity(Some(1));
+        let got: Vec<Option<M>> = match ac.try_stream_find_iter(OneByte(&hay, 0)) {
+            Ok(it) => it.map(|r| r.ok().map(|m| (m.pattern().as_usize(), m.start(), m.end()))).collect(),
+            Err(_) => vec![None],
+        };
+        aho_corasick::verif::buffer::set_spare_capacity(None);
+        let want: Vec<Option<M>> = ac.find_iter(&hay).map(|m| Some((m.pattern().as_usize(), m.start(), m.end()))).collect();
+        if got != want {
+            bad.push(format!("stream search through the top-level searcher {:?} != find_iter {:?}", got, want));
+        }
+    }
+    report("top-level getters / Arc<dyn> forwarders / stream through the wrapper", &bad, &"no difference", !bad.is_empty())
 }
 
 /// Native form of `sim_meta`: start states, `start_state` verdicts, dead
